@@ -1,6 +1,7 @@
 #![allow(dead_code)]
 mod charsets;
 mod dump;
+mod partitions;
 mod regex;
 mod terms;
 mod util;
@@ -50,6 +51,8 @@ fn main() {
     util::silence_panics();
     match (argv[1].as_str(), argv[2].as_str()) {
         ("drive", "charsets") => charsets::drive(&a),
+        ("drive", "partitions") => partitions::drive(&a),
+        ("replay", "partitions") => partitions::replay(&a),
         ("drive", "c01") => regex::drive_c01(&a),
         ("drive", "c02") => regex::drive_c02(&a),
         ("drive", "c03") => regex::drive_c03(&a),
